@@ -12,7 +12,8 @@ import vtlc, engine, gen_aof
 from vbuild import VERIF, InfraError
 
 BASE = dict(keys="1", lids="1, 2", counts="0", rcounts="0", exps="2, 20", classes='"imm", "dflt", "never"', units='"s"', vals="0, 1", delay=1,
-            rewriteat=3, maxops=4, maxnow=5, maxoutage=4, crash="FALSE", admin="FALSE", a2="TRUE", a2b="TRUE", a3="TRUE", a11="FALSE", a26="FALSE", invs="")
+            rewriteat=3, maxops=4, maxnow=5, maxoutage=4, crash="FALSE", admin="FALSE", a2="TRUE", a2b="TRUE", a3="TRUE", a11="FALSE", a26="FALSE", invs="",
+            updexps="", eqlater=1, eqearlier=1)
 
 def cfg_text(**kw):
     with open(os.path.join(VERIF, "spec", "mc", "AofLog_base.cfg")) as fh:
@@ -23,7 +24,13 @@ def cfg_text(**kw):
 
 # per property: (positive configs, refutation configs)
 def plans(prop, quick):
+    p, n, _ = plans3(prop, quick)
+    return p, n
+
+def plans3(prop, quick):
+    """(positive configs, refutations of the code's deviations, refutations of model MUTATIONS - defect classes the code does not have)"""
     ops = 3 if quick else 4
+    mut = []
     if prop == "C07":
         pos = [("single-holder keys, no re-entrancy, delay 1", dict(maxops=ops + 1, invs="Inv_C07_Replay Inv_C07_Discipline")),
                ("minute unit (3 s), values", dict(maxops=ops, units='"s", "m"', exps="1, 7", vals="0, 1" if quick else "0, 1, 2", classes='"imm", "dflt"', invs="Inv_C07_Replay Inv_C07_Discipline"))]
@@ -38,9 +45,14 @@ def plans(prop, quick):
         neg = [("A2b", "a whole record whose value frame was never written stays on reopen (second epoch)",
                 dict(maxops=3, crash="TRUE", a2="TRUE", a2b="FALSE", classes='"imm"', vals="1", invs="Inv_C07_Replay"))]
     else:
-        pos = [("publish-then-remove protocol, crash after every step, admin + threshold triggers", dict(maxops=ops + (0 if quick else 1), admin="TRUE", a3="TRUE", invs="Inv_C16_Steps Inv_C07_Replay"))]
+        pos = [("publish-then-remove protocol, crash after every step, admin + threshold triggers", dict(maxops=ops + (0 if quick else 1), admin="TRUE", a3="TRUE", invs="Inv_C16_Steps Inv_C07_Replay")),
+               ("value-less deadline updates by holders (lengthening), seconds and minutes, compaction filter with the code's tolerance",
+                dict(maxops=ops + (0 if quick else 1), admin="TRUE", a3="TRUE", units='"s", "m"', exps="2, 7", updexps="7", lids="1", classes='"imm", "dflt"', vals="0",
+                     invs="Inv_C16_Steps Inv_C07_Replay"))]
         neg = [("A3", "inputs removed before the rename; two renames", dict(maxops=3, admin="TRUE", a3="FALSE", classes='"imm"', invs="Inv_C16_Steps"))]
-    return pos, neg
+        mut = [("EqLater0", "CheckLockedEqual one second too strict on the later side: the compaction drops the current update record of a live hold",
+                dict(maxops=3, admin="TRUE", a3="TRUE", eqlater=0, exps="2, 20", updexps="20", lids="1", classes='"imm"', vals="0", invs="Inv_C16_Steps"))]
+    return pos, neg, mut
 
 def parse_cex(out):
     res = []
@@ -65,6 +77,10 @@ def hist_to_steps(hist):
             steps.append({"op": "lock", "conn": 1, "db": 0, "key": h["key"], "lid": h["lid"], "flag": 0, "tf": 0,
                           "ef": CLS[h["cls"]] | (0x40 if h["unit"] == "m" else 0), "to": 0, "ex": h["ex"], "cnt": h["cnt"], "rc": h["rc"],
                           "data": VAL[h["val"]], "nodup": True})
+        elif op == "update":
+            steps.append({"op": "lock", "conn": 1, "db": 0, "key": h["key"], "lid": h["lid"], "flag": 0x02, "tf": 0,
+                          "ef": CLS[h["cls"]] | (0x40 if h["unit"] == "m" else 0), "to": 0, "ex": h["ex"], "cnt": h["cnt"], "rc": h["rc"],
+                          "data": "", "nodup": True})
         elif op == "unlock":
             steps.append({"op": "unlock", "conn": 1, "db": 0, "key": h["key"], "lid": h["lid"], "flag": 0, "tf": 0, "ef": 0, "to": 0, "ex": 0,
                           "cnt": 0, "rc": h["rc"], "data": ""})
@@ -113,7 +129,11 @@ def behaviours(seed, n, prop, wd):
     rng = random.Random(seed * 77 + 5)
     out = []
     for part, (ra, mo) in enumerate([(3, 10), (5, 14), (40, 12)]):
-        r = vtlc.run_tlc(os.path.join(VERIF, "spec"), "AofLogSim", t % {"rewriteat": ra, "maxops": mo}, os.path.join(wd, f"sim{part}"), workers=1,
+        simc = {"rewriteat": ra, "maxops": mo, "updexps": "", "moreturns": ""}
+        if prop == "C16":
+            # deadline updates of holders, then compactions (admin trigger, size threshold, start-up)
+            simc.update(updexps="30, 60, 200, 300", moreturns=', "update", "update2"')
+        r = vtlc.run_tlc(os.path.join(VERIF, "spec"), "AofLogSim", t % simc, os.path.join(wd, f"sim{part}"), workers=1,
                          timeout=600, simulate=f"num={max(4, n // 3)}", depth=80, seed=seed + part)
         hs = set()
         for ln in r["out"].splitlines():
@@ -152,9 +172,83 @@ def behaviours(seed, n, prop, wd):
         scs.append(sc)
     return scs
 
+# ------------------------------------------------------------------ spec/AofQueue.tla: value frames handed to the log by reference
+
+QSYM = {11: b"a", 12: b"xyz", 13: b"0123456789abcdefghijklmnopqrstuvwxyzABCD"}
+
+def qhist_to_steps(hist, prop, rel=""):
+    """AofQueue behaviour -> engine-F steps: consecutive operations = one burst (the channel goroutines held back), drain = the gate opens."""
+    steps, cur, held = [], [], set()
+    for h in hist:
+        if h["op"] == "drain":
+            if cur:
+                steps.append({"op": "burst", "reqs": cur, "rel": rel})
+                cur = []
+            continue
+        k = 60 + h["key"]
+        typ = gen_aof.T_SET if h["op"] == "set" else gen_aof.T_APPEND
+        cur.append({"op": "lock", "conn": 1, "db": 0, "key": k, "lid": 1, "flag": 0x02 if k in held else 0, "tf": 0, "ef": 0x0100, "to": 0, "ex": 1800,
+                    "cnt": 0, "rc": 0, "data": gen_aof.frame(QSYM[h["sym"]], typ), "nodup": True})
+        held.add(k)
+    if cur:
+        steps.append({"op": "burst", "reqs": cur, "rel": rel})
+    if prop == "C07":
+        steps += [{"op": "tick", "n": 2, "order": "te"}, {"op": "stop", "child": True}]
+    else:
+        steps.append({"op": "stop", "cuts": "tail", "e2mod": 0, "e2off": 0, "epoch2": [], "child": True})
+    return steps
+
+def queue_model(prop, quick, seed, wd):
+    """Exhaustive check of AofQueue as the code is (FreshFrame), refutation of the in-place APPEND, simulated bursts."""
+    with open(os.path.join(VERIF, "spec", "mc", "AofQueue_base.cfg")) as fh:
+        t = fh.read()
+    consts = dict(keys="1, 2", syms="11, 12", maxops=5 if quick else 6, maxqueue=4 if quick else 5, invs="Inv_FramesAreRecords Inv_CrashPrefix")
+    r = vtlc.run_tlc(os.path.join(VERIF, "spec"), "AofQueue", t % dict(consts, fresh="TRUE"), os.path.join(wd, "mcq_pos"), workers=engine.NCPU, timeout=600)
+    st = vtlc.parse_stats(r["out"])
+    if st is None or "No error has been found" not in r["out"]:
+        raise InfraError("AofQueue exhaustive check (every value operation builds a fresh frame) did not complete cleanly (design model, not a verdict on the code):\n" + r["out"][-3000:])
+    pos = {"config": "value frames handed to the log by reference, every value operation builds a fresh frame (as the code does)",
+           "invariants": "FramesAreRecords CrashPrefix", "distinct_states": st["distinct"], "states_generated": st["generated"], "wall_s": round(r["wall"], 1),
+           "constants": {k: v for k, v in consts.items() if k != "invs"}}
+    r2 = vtlc.run_tlc(os.path.join(VERIF, "spec"), "AofQueue", t % dict(consts, fresh="FALSE", maxops=4), os.path.join(wd, "mcq_neg"), workers=4, timeout=600)
+    cex = parse_cex(r2["out"])
+    if "is violated" not in r2["out"] or not cex:
+        raise InfraError("AofQueue with APPEND extending the live buffer in place was NOT refuted by TLC: the model no longer exhibits the aliasing:\n" + r2["out"][-2500:])
+    sc = {"name": f"cex-{prop}-InPlaceAppend-0", "kind": "cex", "cfg": {"bufsize": 64}, "back": 6, "imgcpt": False, "props": [prop],
+          "from_model": {"invariant": cex[0]["inv"], "switch": "FreshFrame"}, "steps": qhist_to_steps(cex[0]["hist"], prop)}
+    refut = {"switch": "FreshFrame=FALSE", "what": "APPEND extends the live value buffer in place while an earlier record still references it",
+             "invariant": cex[0]["inv"], "counterexample_steps": len(cex[0]["hist"]), "scenario": sc["name"]}
+    # simulated bursts
+    with open(os.path.join(VERIF, "spec", "sim", "AofQueue_sim.cfg")) as fh:
+        ts = fh.read()
+    n = 6 if quick else 60
+    rng = random.Random(seed * 131 + 7)
+    hs = set()
+    for part, (mo, mq) in enumerate([(6, 5), (10, 8)]):
+        rs = vtlc.run_tlc(os.path.join(VERIF, "spec"), "AofQueueSim", ts % {"maxops": mo, "maxqueue": mq}, os.path.join(wd, f"simq{part}"), workers=1,
+                          timeout=300, simulate=f"num={max(4, n)}", depth=60, seed=seed + 40 + part)
+        for ln in rs["out"].splitlines():
+            ln = ln.strip()
+            if ln.startswith('"BEHAVIOUR '):
+                try:
+                    hs.add(json.loads(ln)[10:])
+                except Exception:
+                    pass
+        if "Error:" in rs["out"] and not hs:
+            raise InfraError("burst generation (AofQueueSim) failed:\n" + rs["out"][-2000:])
+    hl = sorted(hs)
+    rng.shuffle(hl)
+    beh = []
+    for i, h in enumerate(hl[:n]):
+        beh.append({"name": f"tlcq-{prop}-{seed}-{i}", "kind": "tlc", "cfg": {"bufsize": rng.choice([64, 128, 4096])}, "back": rng.choice([6, 12]), "imgcpt": False,
+                    "steps": qhist_to_steps(json.loads(h), prop, rel=rng.choice(["", "rev"]))})
+    return {"states": st["distinct"], "transitions": st["generated"], "positive": pos, "refutation": refut,
+            "refuted": {"switch": "FreshFrame=FALSE", "config": refut["what"], "invariant": cex[0]["inv"], "wall_s": round(r2["wall"], 1)},
+            "scenarios": [sc] + beh, "nbeh": len(beh)}
+
 def run(prop, tier, seed, wd):
     quick = tier == "quick"
-    pos, neg = plans(prop, quick)
+    pos, neg, mut = plans3(prop, quick)
     states = trans = 0
     info = {"module": "spec/AofLog.tla (+ spec/AofReplay.tla)", "positive": [], "refuted_as_the_code_is": []}
     for i, (what, kw) in enumerate(pos):
@@ -178,6 +272,24 @@ def run(prop, tier, seed, wd):
         scenarios.append(sc)
         refut.append({"switch": tag, "what": what, "invariant": cex[0]["inv"], "counterexample_steps": len(cex[0]["hist"]), "scenario": sc["name"]})
         info["refuted_as_the_code_is"].append({"switch": tag, "config": what, "invariant": cex[0]["inv"], "wall_s": round(r["wall"], 1)})
+    info["refuted_mutations"] = []
+    for i, (tag, what, kw) in enumerate(mut):
+        r = vtlc.run_tlc(os.path.join(VERIF, "spec"), "AofLog", cfg_text(**kw), os.path.join(wd, f"mc_mut{i}"), workers=4, timeout=600)
+        cex = parse_cex(r["out"])
+        if "is violated" not in r["out"] or not cex:
+            raise InfraError(f"AofLog with the mutation {tag} ({what}) was NOT refuted by TLC: the model does not see this class of defect:\n" + r["out"][-2500:])
+        sc = cex_to_scenario(prop, tag, cex[0], 100 + i, dict(BASE, **kw)["delay"])
+        scenarios.append(sc)
+        refut.append({"switch": tag + " (mutation of the model, not the code)", "what": what, "invariant": cex[0]["inv"], "counterexample_steps": len(cex[0]["hist"]), "scenario": sc["name"]})
+        info["refuted_mutations"].append({"mutation": tag, "config": what, "invariant": cex[0]["inv"], "wall_s": round(r["wall"], 1)})
     beh = behaviours(seed, 18 if quick else 150, prop, wd)
     info["behaviours"] = {"module": "spec/AofLogSim.tla", "generated": len(beh)}
+    if prop in ("C07", "C08"):
+        q = queue_model(prop, quick, seed, wd)
+        states += q["states"]
+        trans += q["transitions"]
+        info["queue_model"] = {"module": "spec/AofQueue.tla", "positive": q["positive"], "refuted_as_mutated": q["refuted"],
+                               "behaviours": {"module": "spec/AofQueueSim.tla", "generated": q["nbeh"]}}
+        scenarios += q["scenarios"]
+        refut.append(q["refutation"])
     return {"states": states, "transitions": trans, "exhaustive": True, "info": info, "scenarios": scenarios + beh, "refutations": refut}
